@@ -41,4 +41,9 @@ FFTSafe(n1, n2, depth, w, kind) ==
        /\ j1 <= 4 * n /\ j2 <= 4 * n /\ trunc <= 4 * n           \* fits the length-4n transform
        /\ (n * w) % 64 = 0                                       \* coefficients are whole limbs
        /\ 2 * bits + Log2Ceil(IF j1 < j2 THEN j1 ELSE j2) <= n * w   \* convolution sums < 2^(nw): no wrap mod 2^(nw)+1
+(* the coefficient size actually used by mul_trunc_sqrt2 / mul_mfa_trunc_sqrt2 (hook "fft.coeff": bits1, j1, j2, n*w): two operands cut into j1 and j2
+   coefficients of `bits` bits; each output coefficient is a sum of at most min(j1, j2) products below 2^(2 bits): it must stay below 2^(n w) *)
+FFTCoeffOK(bits, j1, j2, nw) ==
+   /\ bits >= 1 /\ j1 >= 1 /\ j2 >= 1
+   /\ 2 * bits + Log2Ceil(IF j1 < j2 THEN j1 ELSE j2) <= nw
 =============================================================================
